@@ -336,7 +336,10 @@ func (f *fixture) exchange(kind string, msg []byte, via string, wait time.Durati
 		if err != nil {
 			return exchResult{status: "err:dial"}
 		}
-		s, err := qc.OpenStream()
+		// OpenStreamSync: wait for stream credit (the listener allows 100 concurrent streams per connection)
+		sctx, scancel := context.WithTimeout(context.Background(), wait)
+		s, err := qc.OpenStreamSync(sctx)
+		scancel()
 		if err != nil {
 			return exchResult{status: "err:stream"}
 		}
